@@ -89,6 +89,8 @@ def entries():
     DV = "mkdict(('a', pa, va), ('b', pb, vb), ('x', px, 0))"
     L.append(ent("dict.strict", DP, D % "False", DV, pre=["len(vb) <= 2"]))
     L.append(ent("dict.relaxed", DP, D % "True", DV, pre=["len(vb) <= 2"]))
+    L.append(ent("dict.relaxed.first", DP, D % '"first"', DV, pre=["len(vb) <= 2"]))
+    L.append(ent("dict.relaxed.mid", DP, D % '"mid"', DV, pre=["len(vb) <= 2"]))
     L.append(ent("dict.untyped", "pa: bool, " + W, '("dict", None)', "mkdict(('a', pa, w))",
                 pre=["not isinstance(w, (str, bytes)) or len(w) <= 2"], covers=("accept",)))
     L.append(ent("dict.empty", "pa: bool", '("dict", [], False)', "mkdict(('a', pa, 0))"))
@@ -114,6 +116,11 @@ def entries():
     L.append(ent("any.nested", "a: int, b: int, v: int", '("any", [%s, ("any", [%s, ("none",)])])' % (INT_A, INT_B), "v", covers=("accept",)))
     L.append(ent("any.in.list", "a: int, b: int, n: int, v0: int, v1: int",
                 '("list_t", ("any", [("int", Nil, a, Nil), ("int", Nil, Nil, b)]), NOLEN)', "mklist(n, v0, v1)", pre=["0 <= n <= 2"]))
+    ANYL = '("any", [("list_t", %s, NOLEN), ("list_t", ("str", Nil, (Nil, Nil, k), Nil, Nil, Nil), NOLEN)])' % INT_A
+    L.append(ent("any.of.lists", "a: int, k: int, n: int, v1: int, " + W, ANYL, "mklist(n, w, v1)",
+                 pre=["0 <= n <= 2", "not isinstance(w, (str, bytes)) or len(w) <= 2"]))
+    L.append(ent("any.of.lists.in.dict", "a: int, k: int, n: int, " + W, '("dict", [("r", False, ("dict", [("t", False, %s)], False))], False)' % ANYL,
+                 "{'r': {'t': mklist(n, w)}}", pre=["0 <= n <= 1", "not isinstance(w, (str, bytes)) or len(w) <= 2"]))
     L.append(ent("alias", "a: int, b: int, " + W, '("alias", "T", ("int", Nil, a, b))', "w",
                 pre=["not isinstance(w, (str, bytes)) or len(w) <= 2"]))
     L.append(ent("alias.in.dict", "a: int, pa: bool, va: int",
